@@ -15,7 +15,7 @@ from vlib.kernel import KernelBuild, located_rules
 from . import _common
 
 ID = "K60"
-SERVES = ["C10", "C01", "C13"]
+SERVES = ["C10", "C01", "C03", "C13"]
 TITLE = "truncateImplicitConversion: operand value converted to the common type of the usual arithmetic conversions"
 
 PRELUDE = r'''
